@@ -22,17 +22,16 @@ SCALAR = ('R', 'W', 'Q', 'F')
 def plan(tier):
     if tier == 'quick':
         return [
-            # all programs of <= 3 operations over {R, W, Q(requery), F(flush)} x 2 attributes, 2 sessions, 1 row
-            dict(name='c20-2s-1o-3ops', how='graph', limit=520,
-                 cfg=dict(NS=2, NO=1, MaxOps=3, OpSet=('R', 'W', 'Q'))),
-            # attributes excluded from optimistic checks: optimistic=False / float, volatile
-            dict(name='c20-nonopt', how='graph', limit=160,
-                 cfg=dict(NS=2, NO=1, MaxOps=2, KB='nonopt', OpSet=('R', 'W', 'F'))),
-            dict(name='c20-volatile', how='graph', limit=120,
-                 cfg=dict(NS=2, NO=1, MaxOps=2, KB='volatile', OpSet=('R', 'W', 'F'))),
-            # two rows, deletes, locked objects (exempt from the criteria), flush: sampled behaviours
-            dict(name='c20-2s-2o-sim', how='simulate', num=260, depth=14,
-                 cfg=dict(NS=2, NO=2, MaxOps=3, OpSet=('R', 'W', 'Q', 'F', 'D', 'GFU'))),
+            # 2 sessions, 1 row, programs <= 2 over {R, W, Q(requery), F(flush)}; attribute b ordinary, excluded
+            # from optimistic checks (optimistic=False / float) or volatile: graph replayed on threads
+            dict(name='c20-2s-1o-2ops-kinds', how='graph', limit=680,
+                 cfg=dict(NS=2, NO=1, MaxOps=2, KB=('opt', 'nonopt', 'volatile'), OpSet=SCALAR)),
+            # all programs of <= 3 reads/writes of 2 attributes, all interleavings: invariants only
+            dict(name='c20-2s-1o-3ops', how='check',
+                 cfg=dict(NS=2, NO=1, MaxOps=3, OpSet=('R', 'W'))),
+            # two rows, 3 operations, deletes, locked objects (exempt from the criteria): sampled behaviours
+            dict(name='c20-2s-2o-3ops-sim', how='simulate', num=260, depth=14,
+                 cfg=dict(NS=2, NO=2, MaxOps=3, KB=('opt', 'nonopt'), OpSet=SCALAR + ('D', 'GFU'))),
         ]
     return [
         dict(name='c20-2s-1o-3ops-full', how='graph', limit=None,
